@@ -58,6 +58,7 @@ fn main() {
         "c03" => c03::run(seed, count, &outdir).unwrap(),
         "c04-demo" => { c04::demo(); 0 }
         "c08-demo" => { c08::demo(); 0 }
+        "c05-demo" => { c05::demo(); 0 }
         "c04" => c04::run(seed, count, &outdir, args.get(5).map(|s| s == "jit").unwrap_or(false)).unwrap(),
         _ => { eprintln!("usage: fv <cmd> <seed> <count> <outdir> [budgets]"); 2 }
     };
